@@ -166,6 +166,20 @@ let () =
                  (nat_of_int (int_of_string code)) (idlen <> "badfd") in
       Printf.printf "M %s %s\n" id (if ok then "ok" else "null");
       Printf.printf "S %s %s\n" id (if ok then "ok" else "null")
+    | id :: "rsv" :: mx :: ops ->
+      let ops = List.map (fun t -> if t = "r" then None else Some (nat_of_int (int_of_string (String.sub t 1 (String.length t - 1))))) ops in
+      let show_tab mech tab =
+        let tab = if mech then tab else List.filter (fun e -> e.wetag <> None) tab in
+        if tab = [] then "-" else String.concat "," (List.map (fun e ->
+          hex_of_n e.weid ^ "=" ^ (match e.wetag with None -> "." | Some t -> string_of_int (int_of_nat t))) tab) in
+      let res = reserve_run false [] (nat_of_int (int_of_string mx)) O ops in
+      let toks mech = List.map2 (fun o (r, tab) ->
+        (match o, r with
+         | Some _, _ -> "-"
+         | None, None -> "N"
+         | None, Some (k, i) -> Printf.sprintf "%d:%s" (int_of_nat k) (hex_of_n i)) ^ "|" ^ show_tab mech tab) ops res in
+      Printf.printf "M %s %s\n" id (String.concat " " (toks true));
+      Printf.printf "S %s %s\n" id (String.concat " " (toks false))
     | id :: "con" :: mode :: idl :: ops ->
       let dg = (mode = "d") in
       let pay_of s = if s = "null" then None else Some (bytes_of_hex s) in
